@@ -462,3 +462,27 @@ def assemble (fs : Files) (lines : List Str) : Outcome Assembly :=
 def Assembly.image (a : Assembly) : Option Bytes := (a.stmts.mapM stmtBytes).map List.flatten
 
 end CoCo.Asm
+
+namespace CoCo.Asm
+
+/-! ### the printed listing (`Statement.__str__`) and symbol table (`Program.get_symbol_table`) -/
+
+def ljust (n : Nat) (s : Str) : Str := s ++ List.replicate (n - s.length) ' '
+def rjust (n : Nat) (s : Str) : Str := List.replicate (n - s.length) ' ' ++ s
+
+/-- `"${} {:.10} {} {} {} ; {}".format(address.hex(size=4), codes.ljust(10), label.rjust(10), mnemonic.rjust(5),
+operand.ljust(30), comment.ljust(40))`; `none` = AttributeError on a Python None -/
+def Stmt.listing (s : Stmt) : Option Str := do
+  let a ← s.pkg.address.hex? 4
+  let o ← s.pkg.opCode.hex?
+  let p ← s.pkg.postByte.hex?
+  let d ← s.pkg.additional.hex?
+  let codes := (ljust 10 (o ++ p ++ d)).take 10
+  pure (['$'] ++ a ++ [' '] ++ codes ++ [' '] ++ rjust 10 s.label ++ [' '] ++ rjust 5 s.mnemonic ++ [' '] ++
+        ljust 30 s.origText ++ " ; ".toList ++ ljust 40 s.comment)
+
+/-- `"${} {}".format(value.hex().ljust(4, ' '), symbol)` for every entry of the final symbol table -/
+def symtabLines (t : SymTab) : Option (List Str) :=
+  t.mapM (fun (k, v) => (v.hex?).map (fun h => ['$'] ++ ljust 4 h ++ [' '] ++ k))
+
+end CoCo.Asm
